@@ -204,8 +204,9 @@ func (u Unsafe) LoadEntities(data *EntityDump) {
 		u.world.storage.entityPool.pointer = unsafe.Pointer(&u.world.storage.entityPool.entities[0])
 	}
 
-	u.world.storage.entities = make([]entityIndex, capacity)
-	u.world.storage.isTarget = make([]bool, capacity)
+	// Same capacity as the pool, as reported by the world statistics.
+	u.world.storage.entities = make([]entityIndex, capacity, total)
+	u.world.storage.isTarget = make([]bool, capacity, total)
 
 	table := &u.world.storage.tables[0]
 	table.Extend(uint32(len(data.Alive)))
